@@ -159,6 +159,33 @@ def lifecycle_random(r, idx):
     return {"cfg": cfg, "steps": steps, "tag": {"family": "lifecycle-random", "end": end, "idx": idx}}
 
 
+def lifecycle_migrated(r, idx):
+    """A connection whose client has changed its address (and whose server has followed: new
+    connection IDs, the reset token registered for the new address) ends in one of the usual ways on
+    a clean network: everything the endpoint filed for it, under either address, has to go."""
+    idle = r.choice([2000, 3000])
+    cfg = base_cfg(r, server={"idle_ms": idle}, client={"idle_ms": idle})
+    steps = [{"do": "connect", "n": 1}, {"do": "run_until", "what": "connected", "max_us": 20000000}]
+    if r.random() < 0.7:
+        steps.append(workload(r, big=False))
+    steps.append({"do": "run", "us": r.choice([100000, 300000])})
+    for _ in range(r.choice([1, 1, 2])):
+        steps.append({"do": "migrate", "n": 1, "addr": [r.choice([1, 3]), 1, r.choice([50001, 50009, 50017])]})
+        steps.append({"do": "op", "n": 1, "c": 0, "op": {"op": "ping"}})
+        steps.append({"do": "run", "us": r.choice([300000, 600000])})
+    end = r.choice(["closeC", "closeS", "both", "crashC", "crashS", "none"])
+    if end in ("closeC", "both"):
+        steps.append({"do": "op", "n": 1, "c": 0, "op": {"op": "close", "code": 5, "reason": "c"}})
+    if end in ("closeS", "both"):
+        steps.append({"do": "op", "n": 0, "c": 0, "op": {"op": "close", "code": 6, "reason": "s"}})
+    if end == "crashS":
+        steps.append({"do": "blackhole", "n": 0})
+    if end == "crashC":
+        steps.append({"do": "blackhole", "n": 1})
+    steps.append({"do": "run", "us": 2 * idle * 1000 + 8000000})
+    return {"cfg": cfg, "steps": steps, "tag": {"family": "lifecycle-migrated", "end": end, "idx": idx}}
+
+
 # ------------------------------------------------------------------------------------------------
 # C01
 
